@@ -1,4 +1,5 @@
 import LenaModel.Model.C16
+import LenaModel.Model.C16Spec
 import LenaModel.Lemmas.C16
 import LenaModel.Lemmas.C16Run
 import LenaModel.Lemmas.C16Acc
@@ -93,6 +94,17 @@ theorem init_accepts_iff (caps : Caps) (bufsize : Int) (reset : Option Bool) (bi
     have h6 : ¬ bufsize < 1 := by omega
     rw [if_neg h1, if_neg h2, if_neg h3, if_neg h4, if_neg h5, if_neg h6]
     exact ⟨_, rfl⟩
+
+/-- the same with the Boolean `initContract` that the driver evaluates and the harness compares with the Python
+transcription of the docstring -/
+theorem init_accepts_iff_contract (caps : Caps) (bufsize : Int) (reset : Option Bool) (bi bo yor : Bool) :
+    (∃ c, mkFillRequest caps bufsize reset bi bo yor = .ok c) ↔ initContract caps bufsize reset bi bo yor = true := by
+  rw [init_accepts_iff]
+  unfold initContract
+  cases caps.run <;> cases caps.fill <;> cases caps.request <;> cases caps.compute <;> cases caps.reset <;>
+    cases reset with
+    | none => cases yor <;> cases bi <;> cases bo <;> simp
+    | some r => cases r <;> cases yor <;> cases bi <;> cases bo <;> simp
 
 /-! ### `run` -/
 
@@ -507,6 +519,33 @@ example : ∀ t : List Nat, ((lstEl : El (List Nat) Nat (List Nat)).req t).1.len
 example : ([0, 1, 2, 3, 4, 5, 6].foldl (fillR lstEl 3 true false) (St.init [])).bufOut = [[0, 1, 2], [3, 4, 5]] := by
   decide
 example : ([0, 1, 2, 3, 4, 5, 6].foldl (fillR lstEl 3 true true) (St.init [])).bufIn = [3, 4, 5, 6] := by decide
+
+/-! ### the invariants as the driver evaluates them -/
+
+theorem normalB_iff (N : Nat) (s : St σ α β) : normalB N s = true ↔ Normal N s := by
+  simp [normalB, Normal, and_assoc]
+
+theorem frInvB_iff (N : Nat) (bi : Bool) (s : St σ α β) : frInvB N bi s = true ↔ FRInv N bi s := by
+  unfold frInvB FRInv
+  cases bi <;> simp [and_assoc] <;> intros <;> (try exact Decidable.or_iff_not_imp_left)
+
+/-- **The invariant holds along every history** (as `invOps`, evaluated by the driver on every generated history):
+every state satisfies `FRInv`, every state right after a `request()` is `Normal`, with nothing pending under
+`yield_on_remainder`. -/
+theorem invOps_holds (e : El σ α β) (N : Nat) (rst bi yor : Bool) (hN : 0 < N) : ∀ (ops : List (Op α)) (s : St σ α β),
+    FRInv N bi s → invOps e N rst bi yor ops s = true
+  | [], s, h => by simpa [invOps] using (frInvB_iff N bi s).2 h
+  | .fill x :: r, s, h => by
+    simp only [invOps, Bool.and_eq_true]
+    exact ⟨(frInvB_iff N bi s).2 h, invOps_holds e N rst bi yor hN r _ (fill_inv e N rst bi hN s x h)⟩
+  | .request :: r, s, h => by
+    obtain ⟨hn, hy⟩ := request_yields_normal e N rst bi yor hN s h
+    simp only [invOps, Bool.and_eq_true]
+    refine ⟨⟨⟨(frInvB_iff N bi s).2 h, (normalB_iff N _).2 hn⟩, ?_⟩,
+      invOps_holds e N rst bi yor hN r _ (normal_inv bi hn)⟩
+    cases yor with
+    | false => rfl
+    | true => simpa using hy rfl
 
 /-! ### what the correspondence check observes -/
 
